@@ -34,3 +34,23 @@ claim("C08",
       "single-survivor accumulated length, unifurcation suppression, source tree unchanged and extraction_source mapping, reported removed nodes.",
       TB, "symbolic execution (CrossHair+z3) of prune/retain/extract with symbolic subsets and edge lengths against an induced-subtree oracle",
       "DESIGN.md 3/C08")
+
+claim("C01",
+      "Two engines. (B) The bitmask kernels (normalize_bitmask, is_trivial_bitmask, is_compatible_bitmasks, least_significant_set_bit and the "
+      "Bipartition predicate methods) are translated from their live source into z3 bit-vector terms on every run and 20 obligations "
+      "(canonical form, idempotence, popcount definition of triviality, clade/four-way compatibility, nesting) are discharged as unsat for "
+      "EVERY mask of the stated width (16 bits quick, 64 thorough; cvc5 cross-check in thorough); the translator is validated against the real "
+      "functions on 10 000 concrete evaluations. (A) Bounded symbolic execution of encode_bipartitions / from_split_bitmasks / the predicates "
+      "on real trees: every shape in the bound, symbolic taxon->bit assignment (namespaces with removed/sorted/extra taxa), rooting and flags; "
+      "oracle = OR of taxon bits below each edge computed from raw links, label-set clades/splits for iff and reconstruction.",
+      TB, "AST->SMT translation of the bit kernels decided by z3 over all masks (Engine B) + symbolic execution (CrossHair+z3) of encoding/reconstruction on real trees (Engine A)",
+      "DESIGN.md 3/C01")
+
+claim("C04",
+      "Bounded symbolic execution of treecompare on pairs of real trees: all pairs of unordered shapes in the bound, symbolic relabelling, "
+      "rooting, and a symbolic integer length on every edge of both trees. Oracle: split -> summed edge length maps computed from raw links; "
+      "z3 proves |S1 symdiff S2|, FP/FN and the L1 identity of weighted RF for every length vector (abs() stays an ite term), Euclidean on small "
+      "patterns, symmetry of value and of definedness with a missing length, staleness after a structural edit between two calls, and refusal "
+      "of different namespaces. The metric axioms (zero on re-drawings, symmetry, triangle inequality) follow from the verified identities.",
+      TB, "symbolic execution (CrossHair+z3) of the distance functions with symbolic edge lengths against a split/length-map oracle",
+      "DESIGN.md 3/C04")
